@@ -478,11 +478,14 @@ fn run_in(case: &C06Case, exec: &mut Exec) -> Result<CaseInfo, Fail> {
       let named = (.head "only-in-a" --context "{actx}")
       {{
         cat: (.cat | each {{|f| $f.id}}),
+        cat2: (.cat --limit 2 | each {{|f| $f.id}}),
         cat_after: (.cat --last-id "{last}" | each {{|f| $f.id}}),
         head: (if $own == null {{ "none" }} else {{ $own.id }}),
         foreign: (if $foreign == null {{ "none" }} else {{ $foreign.id }}),
-        named: (if $named == null {{ "none" }} else {{ $named.id }})
+        named: (if $named == null {{ "none" }} else {{ $named.id }}),
+        got: (.get "{sid}")
       }}"#,
+        sid = sentinel.id,
         t = crate::nu::nu_str(t),
         actx = id_str(a),
         last = in_a.first().map(|w| w.id.clone()).unwrap_or(id_str(1)),
@@ -582,6 +585,29 @@ fn run_in(case: &C06Case, exec: &mut Exec) -> Result<CaseInfo, Fail> {
                 v["foreign"],
                 id_str(a)
             )));
+        }
+        // `.cat --limit 2` is exactly the first two frames of the script's context
+        let first2: Vec<serde_json::Value> = b_stream.iter().take(2).map(|w| serde_json::Value::String(w.id.clone())).collect();
+        if v["cat2"].as_array().cloned().unwrap_or_default() != first2 {
+            return Err(iso(format!(
+                "`.cat --limit 2` inside a {who} script running for context {} returned {}, that context's stream begins {:?}",
+                id_str(b),
+                v["cat2"],
+                first2
+            )));
+        }
+        // by-id lookup from a script returns the frame as accepted
+        let g = &v["got"];
+        if g["id"].as_str() != Some(&sentinel.id)
+            || g["topic"].as_str() != Some(&sentinel.topic)
+            || g["context_id"].as_str() != Some(&sentinel.ctx)
+            || g["hash"].as_str().map(|s| s.to_string()) != sentinel.hash
+            || g.get("meta").cloned().filter(|m| !m.is_null()) != sentinel.meta_json()
+        {
+            return Err(Fail::new(
+                Class::Field,
+                format!("`.get {}` inside a {who} script returned {g}, the stored frame is {:?}", sentinel.id, sentinel),
+            ));
         }
         if v["named"].as_str() != Some(&only_a.id) {
             return Err(iso(format!(
